@@ -1,12 +1,15 @@
+mod atomic_props;
 mod cnf_props;
 mod common;
 mod conc_props;
 mod core_props;
 mod enum_props;
 mod optimal_props;
+mod persist_props;
 mod gen;
 mod history_props;
 mod rng;
+mod sample_props;
 mod space;
 mod tt;
 
@@ -26,6 +29,8 @@ fn main() {
         }
         i += 1;
     }
+    std::fs::create_dir_all(&a.out).ok();
+    if let Ok(p) = std::fs::canonicalize(&a.out) { a.out = p.to_string_lossy().to_string(); }
     if std::env::var("VERIF_LOUD").is_err() { common::quiet_panics(); }
     match a.prop.as_str() {
         "C01" => core_props::c01(&a),
@@ -34,6 +39,10 @@ fn main() {
         "C04" => core_props::c04(&a),
         "C05" => core_props::c05(&a),
         "C06" => enum_props::c06(&a),
+        "C07" => sample_props::c07(&a),
+        "C18" => sample_props::c18(&a),
+        "C08" => atomic_props::c08(&a),
+        "C10" => persist_props::c10(&a),
         "C14" => conc_props::c14(&a),
         "C15" => conc_props::c15(&a),
         "C17" => conc_props::c17(&a),
